@@ -159,11 +159,11 @@ func runCase(dir string, n int, line string) (res string) {
 						for len(b) > 0 {
 							sz := 1
 							if transport == "proxyP" {
-								// pauses: the first message passes untouched, later ones arrive in three parts 150 ms apart
+								// pauses: the first message passes untouched, later ones arrive in three parts 400 ms apart
 								sz = len(b)
 								if msg > 0 && k > 2 {
 									sz = (k + 2) / 3
-									time.Sleep(150 * time.Millisecond)
+									time.Sleep(400 * time.Millisecond)
 								}
 							} else if transport != "proxy1" {
 								seed = seed*1664525 + 1013904223
@@ -203,17 +203,17 @@ func runCase(dir string, n int, line string) (res string) {
 	var resolver *varlink.Resolver
 	var out []string
 	stop := false
-	// behind the pausing proxy the first operation runs under a short deadline (and completes well within it), all later ones
-	// under contexts without a deadline (a watchdog cancels them after 3 s): a pause is then never a reason to fail
+	// behind the pausing proxy the first operation runs under a 1.5 s deadline (and completes long before it), all later ones
+	// under contexts without a deadline (a watchdog cancels them after 10 s): a pause is then never a reason to fail
 	opTimeout := func(i int) (context.Context, context.CancelFunc) {
 		if transport != "proxyP" {
-			return context.WithTimeout(ctx, 700*time.Millisecond)
+			return context.WithTimeout(ctx, 3*time.Second)
 		}
 		if i == 0 {
-			return context.WithTimeout(ctx, 200*time.Millisecond)
+			return context.WithTimeout(ctx, 1500*time.Millisecond)
 		}
 		c, cf := context.WithCancel(ctx)
-		t := time.AfterFunc(3*time.Second, cf)
+		t := time.AfterFunc(10*time.Second, cf)
 		return c, func() { t.Stop(); cf() }
 	}
 	for opi, f := range ops {
